@@ -1,20 +1,21 @@
 (* C07 Tests: computed witnesses for the clauses of the property that are still FALSE of the model after the
-   repairs d413f58 (buffered panic channel) and 1af3580 (re-check of the panic channel in the output arm): each is a
+   repairs d413f58 (buffered panic channel), 1af3580 (re-check of the panic channel in the output arm) and e753473
+   (re-check after the deferred range over output): each is a
    concrete schedule (found with Explore.explore) replayed here step by step.  The exhaustive small-bound
    explorations are in ExploreTests.v (kept out of the cone of Props.v: they are tests, and coqchk has no VM). *)
 From God Require Import Base.Prelude C07.Model C07.Explore.
 
-(* W2: the reducer writes a value and then panics: the caller took the value (no panic recorded at its re-check),
-   the later panic lands in the buffer and is never looked at: the call returns 7, nothing is re-raised. *)
-Definition cf_w2 : cfg := mkcfg 1 [0] None (fun _ => [AWrite 1]) (Some 0) [RWrite 7; RPanic 9] false.
-Definition sched_w2 : list label :=
-  [LX; LXAcq; LGSendX; LX; LG; LG; LR; LCOut; LC; LR; LW 0; LW 0; LR; LW 0; LXAcq; LX; LX; LX; LR; LR; LR; LC].
+(* W7: the reducer writes twice and then panics: the caller's deferred loop receives the second value and panics
+   "written twice" before it reaches the re-check of the panic buffer: the reducer's own panic (9) is not the one
+   raised in the caller.  (Two clauses of the property collide: "writing twice panics in the caller" wins.) *)
+Definition cf_w7 : cfg := mkcfg 1 [] None (fun _ => []) None [RWrite 1; RWrite 2; RPanic 9] false.
+Definition sched_w7 : list label := [LX; LXAcq; LG; LG; LX; LX; LX; LR; LR; LCOut; LC; LR; LC; LR; LR; LR; LR].
 
-Lemma w2_write_then_panic_dropped : exists s,
-  run cf_w2 (init cf_w2) sched_w2 = Some s /\ final s = true /\
-  c s = CDone (ORet 7) /\ fpanic s = Some (PUser 9) /\ ctxd s = false /\ conce s = ONone.
+Lemma w7_twice_wins_over_panic : exists s,
+  run cf_w7 (init cf_w7) sched_w7 = Some s /\ final s = true /\
+  c s = CDone OPanicTwice /\ fpanic s = Some (PUser 9) /\ ctxd s = false /\ conce s = ONone.
 Proof.
-  destruct (run cf_w2 (init cf_w2) sched_w2) as [s|] eqn:E; [|vm_compute in E; discriminate].
+  destruct (run cf_w7 (init cf_w7) sched_w7) as [s|] eqn:E; [|vm_compute in E; discriminate].
   exists s. split; [reflexivity|]. vm_compute in E. inversion E; subst; clear E. repeat split; reflexivity.
 Qed.
 
